@@ -1,6 +1,10 @@
 package main
 
-import "math/rand"
+import (
+	"fmt"
+	"math/rand"
+	"strings"
+)
 
 // c12Stream builds timestamp-centred streams: explicit timestamps with
 // boundary values, compressed-timestamp runs over all 32 offsets with
@@ -118,6 +122,28 @@ func runC12(c *Ctx) {
 	c.Assume = []string{
 		"Contract: Timestamps section of FitRef (least t >= reference congruent to the 5-bit offset; local time = reference instant in a zone of offset local - reference; offset 0 without reference)",
 		"left unconstrained, as DESIGN.md C12 says: a compressed record before any reference; references below 0x10000000 for local times; anything after a local time that arrived without reference, or after an unknown message carrying field 253, until the next explicit timestamp",
+	}
+	// Impl (masked int32 arithmetic with lastTimeOffset) vs Contract (least
+	// t >= reference congruent to the offset), in lockstep, by TLC
+	for _, mod := range []int{32, 16} {
+		cfg := fmt.Sprintf("CONSTANTS\n Explicit <- MC_Explicit\n MaxOps = %d\n ImplMod = %d\nSPECIFICATION Spec\nINVARIANTS SameReference LastIsLowBits\nPROPERTY AdvanceBelow32\nCHECK_DEADLOCK FALSE\n", c.pick(4, 5), mod)
+		r := c.runTLC(TLCRun{Module: "MC_TimestampImpl", Cfg: cfg, Workers: 8, HeapGB: 4})
+		violated := strings.Contains(r.Out, "is violated")
+		if mod == 32 {
+			if r.Exit != 0 {
+				if violated {
+					c.report("timestamp-model", "TLC: the decoder's compressed-timestamp arithmetic (TimestampImpl) departs from the FIT rule:\n"+c.tlcTail(r), nil)
+				} else {
+					c.die("TLC MC_TimestampImpl exit %d\n%s", r.Exit, c.tlcTail(r))
+				}
+			}
+			c.account(r)
+			c.add("timestamp_model_states", r.Distinct)
+		} else if !violated {
+			c.die("TimestampImpl with a 4-bit mask does not violate SameReference: the model is vacuous\n%s", c.tlcTail(r))
+		} else {
+			c.Cov["model_detects_4bit_mask"] = true
+		}
 	}
 	rng := newRng(c.Seed)
 	var calls []*Call
